@@ -105,7 +105,9 @@ func TestTestGen(t *testing.T) {
 		ev.Inconclusive(e)
 		t.Fatalf("setup: %s", e)
 	}
-	pinned(t)
+	if ev.ShardIndex() == 0 {
+		pinned(t)
+	}
 	rapid.Check(t, func(t *rapid.T) {
 		c, err := genCase(t)
 		if err != nil {
